@@ -1,10 +1,14 @@
 ----------------------------- MODULE MC_AttrQName -----------------------------
 EXTENDS AttrQName, TLC, Json
 VARIABLE c
-Init == c \in Cases
+\* attribute-name cases are records, element-type cases are sets of declared types
+Init == c \in Cases \cup { [D |-> D] : D \in ECases }
 Next == UNCHANGED c
 Spec == Init /\ [][Next]_c
-InvDesign == DesignInv
+InvDesign == DesignInv /\ DesignInvE
 WSeq(x) == [k \in 1..3 |-> k \in x.w]
-InvEmit == PrintT(<<"REPLAY", ToJson([d |-> c.d, dk |-> c.dk, w |-> WSeq(c), text |-> Render(QDoc(c))])>>)
+InvEmit ==
+  IF "D" \in DOMAIN c
+  THEN PrintT(<<"REPLAY", ToJson([kind |-> "elem", decl |-> [k \in 1..3 |-> k \in c.D], text |-> Render(EDoc(c.D))])>>)
+  ELSE PrintT(<<"REPLAY", ToJson([kind |-> "attr", d |-> c.d, dk |-> c.dk, w |-> WSeq(c), text |-> Render(QDoc(c))])>>)
 =============================================================================
